@@ -1,3 +1,89 @@
-(* C19 - placeholder while the harness is being brought up *)
-From GV Require Import Base.Prelude SchemaOps.Schema SchemaOps.Sort SchemaOps.Diff.
-Example C19_example : True. Proof. exact I. Qed.
+(* C19 - schema transformations preserve meaning.  Theorems only; proofs in
+   SchemaOps/SortProps.v, DiffProps.v, BuildProps.v, NatOrderProps.v. *)
+From Coq Require Import Permutation.
+From GV Require Import Base.Prelude SchemaOps.Schema SchemaOps.NatOrder SchemaOps.NatOrderProps
+  SchemaOps.Sort SchemaOps.SortProps SchemaOps.Diff SchemaOps.DiffProps SchemaOps.Build SchemaOps.Sdl
+  SchemaOps.BuildProps.
+
+(* Sorting, for EVERY comparison of names: each container of [sort s] (type map, fields, arguments,
+   enum values, union members, interfaces, input fields, directives, directive locations and
+   directive arguments) is a permutation of the original one, and nothing else changes
+   ([schema_rel] fixes descriptions, root names, kinds, types, defaults, deprecations, flags). *)
+Theorem C19_sort_perm : forall leb s, schema_rel s (sort leb s).
+Proof. exact sort_perm. Qed.
+Print Assumptions C19_sort_perm.
+
+(* Sorting twice equals sorting once, for every total comparison ... *)
+Theorem C19_sort_idem : forall leb, (forall a b, leb a b = false -> leb b a = true) ->
+  forall s, sort leb (sort leb s) = sort leb s.
+Proof. exact sort_idem. Qed.
+Print Assumptions C19_sort_idem.
+
+(* ... in particular for the natural order of the implementation (natural_comparison_key). *)
+Theorem C19_sort_idem_natural : forall s, sort natural_leb (sort natural_leb s) = sort natural_leb s.
+Proof. exact (sort_idem natural_leb natural_leb_total). Qed.
+Print Assumptions C19_sort_idem_natural.
+
+(* Comparing a schema with itself reports no change ([wf]: names unique inside each keyed container). *)
+Theorem C19_diff_refl : forall leb s, wf s -> diff leb s s = [].
+Proof. exact diff_refl. Qed.
+Print Assumptions C19_diff_refl.
+
+(* The change detector is insensitive to the order of every container ... *)
+Theorem C19_diff_order_insensitive : forall leb a b, wf a -> schema_rel a b -> diff leb a b = [].
+Proof. exact diff_rel_nil. Qed.
+Print Assumptions C19_diff_order_insensitive.
+
+(* ... so no difference is detected between a schema and its sort (for any order used by either). *)
+Theorem C19_sort_no_diff : forall leb leb' s, wf s -> diff leb s (sort leb' s) = [].
+Proof. exact sort_no_diff. Qed.
+Print Assumptions C19_sort_no_diff.
+
+(* A document without type-system definitions returns the argument itself. *)
+Theorem C19_extend_noop_identity : forall s ds, forallb is_executable ds = true -> extend s ds = s.
+Proof. exact extend_noop_identity. Qed.
+Print Assumptions C19_extend_noop_identity.
+
+(* extend (build A) B = build (A ++ B) in any definition order of A and B, for extension documents
+   that add members to existing types of any kind, new types and new directives.
+   Partial: B contains no schema definition/extension (operation types are only tested),
+   directive extensions and directive-only extensions (@specifiedBy/@oneOf) are not modelled. *)
+Theorem C19_extend_hom_partial : forall A B sA,
+  build A = Some sA ->
+  members_only B = true ->
+  (forall e t, In e (type_exts A) -> In t (type_defs B) -> t_name e <> t_name t) ->
+  (forall t, In t (type_defs B) -> t_name t <> nQuery /\ t_name t <> nMutation /\ t_name t <> nSubscription) ->
+  build (A ++ B) = Some (extend sA B).
+Proof. exact extend_hom. Qed.
+Print Assumptions C19_extend_hom_partial.
+
+(* non-vacuity: a well-formed two-type schema whose sort differs from it; an extension *)
+Definition ex_Q : typedef :=
+  mkType 1 nQuery None
+    [mkField ([98]) [mkArg ([122]) (TNamed ([73])) None None None;
+                          mkArg ([97]) (TNonNull (TNamed ([73]))) (Some (VLeaf 1 [49])) None None]
+       (TList (TNamed ([65]))) None None;
+     mkField ([97; 49; 48]) [] (TNamed ([65])) (Some [100]) None;
+     mkField ([97; 50]) [] (TNamed ([65])) None None]
+    [] [] [] [] None false.
+Definition ex_A : typedef := mkType 4 ([65]) None [] [] [] [mkEnumVal ([89]) None None; mkEnumVal ([88]) None None] [] None false.
+Definition ex_s : schema := mkSchema None (Some nQuery) None None [ex_Q; ex_A] [].
+
+Example C19_example_sort :
+  map f_name (t_fields (nth 1 (s_types (sort natural_leb ex_s)) ex_A)) = [[97; 50]; [97; 49; 48]; [98]]
+  /\ map t_name (s_types (sort natural_leb ex_s)) = [[65]; nQuery]
+  /\ sort natural_leb ex_s <> ex_s.
+Proof. repeat split; try reflexivity. intro H. discriminate H. Qed.
+
+Example C19_example_wf : wf ex_s.
+Proof.
+  unfold wf, wf_type, wf_field, ex_s; cbn.
+  repeat (split || constructor || (intro H; cbn in H; repeat (destruct H as [H|H]; try discriminate H); try contradiction)).
+Qed.
+
+Example C19_example_extend :
+  let A := [DType ex_Q; DType ex_A] in
+  let B := [DExtend (mkType 4 ([65]) None [] [] [] [mkEnumVal ([90]) None None] [] None false); DExecutable] in
+  exists sA, build A = Some sA /\ members_only B = true
+             /\ map e_name (t_values (nth 1 (s_types (extend sA B)) ex_Q)) = [[89]; [88]; [90]].
+Proof. eexists. repeat split; reflexivity. Qed.
